@@ -204,7 +204,13 @@ class LDAWrapper(LinearSolver):
                 x0_loc[idia, ...] = 0
                 for x in x_data:
                     beta = x0_loc[isel, ...].T @ x.conj() / (x.conj() @ x)
-                    x0_loc[isel, ...] -= np.outer(x, beta)
+                    x0_rem = np.outer(x, beta)
+                    if np.iscomplexobj(x0_rem) and not np.iscomplexobj(x0_loc):
+                        if np.linalg.norm(np.imag(x0_rem)) < 1e-10*np.linalg.norm(np.real(x0_rem)):
+                            x0_rem = np.real(x0_rem)
+                        else:
+                            continue  # Complex vector cannot be subtracted from a real initial guess
+                    x0_loc[isel, ...] -= x0_rem
             else:
                 x0_loc = None
 
